@@ -15,6 +15,7 @@ from concurrent.futures import ThreadPoolExecutor
 import vlib
 
 PID = 'C04'
+MAX_RERUN = 2000
 
 
 # ------------------------------------------------------------------ cases ------------
@@ -60,15 +61,24 @@ def corpus_cases(ctx):
 
 
 # ------------------------------------------------------------------ run + validate ---
-def run_cases(ctx, exe, cases, tag):
-    cin = ctx.path('run', tag + '-cases.ndjson')
-    tout = ctx.path('run', tag + '-trace.ndjson')
-    with open(cin, 'w') as f:
-        for i, c in enumerate(cases):
-            f.write(json.dumps(dict(id=i, src=list(c['src']), inline=c['inline'], css2=c['css2']),
-                               separators=(',', ':')) + '\n')
-    vlib.run([exe, cin, tout], timeout=1800)
-    return [json.loads(l) for l in open(tout)]
+def run_cases(ctx, exe, cases, tag, isolated=False):
+    """isolated: one fresh driver process per case (used to confirm rejections)"""
+    groups = [[i] for i in range(len(cases))] if isolated else [list(range(len(cases)))]
+    events = []
+    for g, idxs in enumerate(groups):
+        cin = ctx.path('run', '%s-%d-cases.ndjson' % (tag, g))
+        tout = ctx.path('run', '%s-%d-trace.ndjson' % (tag, g))
+        with open(cin, 'w') as f:
+            for i in idxs:
+                c = cases[i]
+                f.write(json.dumps(dict(id=i, src=list(c['src']), inline=c['inline'], css2=c['css2']),
+                                   separators=(',', ':')) + '\n')
+        vlib.run([exe, cin, tout], timeout=1800)
+        events += [json.loads(l) for l in open(tout)]
+        if isolated:
+            os.remove(cin)
+            os.remove(tout)
+    return events
 
 
 def tv_key(e):
@@ -115,10 +125,10 @@ def tv(ctx, lines, timeout=1700):
     return rejects, notes
 
 
-def validate(ctx, exe, cases, tag):
+def validate(ctx, exe, cases, tag, isolated=False):
     """Run the cases on the real code and validate every item position.
     Returns (events, per-case rejects {case_index: [(idx, why)]}, stats)."""
-    events = run_cases(ctx, exe, cases, tag)
+    events = run_cases(ctx, exe, cases, tag, isolated)
     uniq, first = {}, []
     skipped_mal = set()
     for e in events:
@@ -470,14 +480,15 @@ def run(ctx):
     # every rejected case is re-run alone (fresh process) and re-validated before it counts
     bad = sorted(per_case)
     reproduced = 0
-    for ci in bad[:300]:
-        c = cases[ci]
-        ev2, pc2, _ = validate(ctx, exe, [c], 'rerun-%d' % ci)
-        if 0 in pc2:
-            reproduced += 1
-            ctx.report(ident(c), describe(c, ev2, pc2[0]), replay_obj=dict(rejects=pc2[0]))
-    if len(bad) > 300:
-        raise vlib.Infra('%d rejected cases: more than can be re-run individually' % len(bad))
+    if bad:
+        sub = [cases[ci] for ci in bad[:MAX_RERUN]]
+        ev2, pc2, _ = validate(ctx, exe, sub, 'rerun', isolated=True)
+        for k, c in enumerate(sub):
+            if k in pc2:
+                reproduced += 1
+                ctx.report(ident(c), describe(c, [e for e in ev2 if e['id'] == k], pc2[k]), replay_obj=dict(rejects=pc2[k]))
+    if len(bad) > MAX_RERUN:
+        vlib.log('%d rejected cases, only the first %d were re-run individually' % (len(bad), MAX_RERUN))
     ctx.coverage['rejections'] = len(bad)
     ctx.coverage['rejections_reproduced'] = reproduced
     nontrivial = set()
